@@ -3,9 +3,12 @@ package main
 import (
 	"bufio"
 	"context"
+	crand "crypto/rand"
 	"encoding/json"
+	"io"
 	"flag"
 	"fmt"
+	"net/url"
 	"os"
 	"strings"
 
@@ -27,10 +30,35 @@ type schedRow struct {
 }
 
 type gateCtl struct {
-	active bool
-	arrive chan string
-	grant  map[string]chan struct{}
-	count  map[string]int
+	active   bool
+	arrive   chan string
+	grant    map[string]chan struct{}
+	count    map[string]int
+	current  string // the client whose request is running (exactly one at a time under a schedule)
+	counting *int   // solo runs: count the scheduling points instead of stopping at them
+}
+
+// gateReader makes every read of the process-wide randomness source a scheduling point, AFTER the bytes
+// have been delivered: a request that keeps such bytes in anything shared with other requests (a scratch
+// buffer, a reused generator state) is then overtaken exactly where it hurts.
+type gateReader struct {
+	inner io.Reader
+	ctl   *gateCtl
+}
+
+func (g gateReader) Read(p []byte) (int, error) {
+	n, err := g.inner.Read(p)
+	c := g.ctl
+	switch {
+	case c.counting != nil:
+		*c.counting++
+	case c.active && c.current != "" && c.grant[c.current] != nil:
+		id := c.current
+		c.count[id]++
+		c.arrive <- id
+		<-c.grant[id]
+	}
+	return n, err
 }
 
 func (g *gateCtl) gate(ctx context.Context, c sut.Call) {
@@ -111,6 +139,17 @@ func schedSteps(mods map[string]bool) []schedStep {
 				c.do(in, "POST", "/auth/recover/end", map[string]string{"token": tok, "password": c.pw, "confirm_password": c.pw})
 			}})
 	}
+	if mods["oauth2"] {
+		st = append(st,
+			schedStep{"oauthstart", func(c *cClient, in *sut.Instance) { c.do(in, "GET", "/auth/oauth2/pa?rm=true", nil) }},
+			schedStep{"oauthcallback", func(c *cClient, in *sut.Instance) {
+				state := c.jar.Session["oauth2_state"]
+				if state == "" {
+					state = "none"
+				}
+				c.do(in, "GET", "/auth/oauth2/callback/pa?state="+url.QueryEscape(state)+"&code="+url.QueryEscape(fmt.Sprintf("uid:c%d", c.id)), nil)
+			}})
+	}
 	if mods["register"] {
 		st = append(st, schedStep{"reregister", func(c *cClient, in *sut.Instance) {
 			c.do(in, "POST", "/auth/register", map[string]string{"email": c.pid, "password": c.pw, "confirm_password": c.pw})
@@ -144,11 +183,27 @@ func cloneClient(c *cClient) *cClient {
 	return &n
 }
 
+// the client-state keys whose values the library draws at random
+var randomKeys = map[string]bool{"oauth2_state": true, "rm": true, "twofactor_auth_token": true, "sms_secret": true, "totp_secret": true}
+
+func sharedSecret(a, b *cClient) string {
+	for _, pair := range [][2]map[string]string{{a.jar.Session, b.jar.Session}, {a.jar.Cookie, b.jar.Cookie}} {
+		for k, v := range pair[0] {
+			if randomKeys[k] && v != "" && pair[1][k] == v {
+				return k
+			}
+		}
+	}
+	return ""
+}
+
 // observe runs one step of one client and returns what that client can see of it
 func observe(in *sut.Instance, c *cClient, st schedStep) string {
 	st.run(c, in)
 	return strings.Join(c.out, "\n") + "\nfinal " + finalState(in, c)
 }
+
+var baseRand = crand.Reader
 
 func schedCmd(args []string) {
 	fs := flag.NewFlagSet("sched", flag.ExitOnError)
@@ -194,6 +249,7 @@ func schedCmd(args []string) {
 	modSets := [][]string{
 		{"auth", "logout", "recover", "lock", "otp"},
 		{"auth", "logout", "remember", "recover", "register", "confirm", "expire"},
+		{"auth", "logout", "oauth2", "remember"},
 	}
 	for mi, mods := range modSets {
 		mm := map[string]bool{}
@@ -213,6 +269,7 @@ func schedCmd(args []string) {
 			A, B := cs[0], cs[1]
 			ctl := &gateCtl{arrive: make(chan string), grant: map[string]chan struct{}{}, count: map[string]int{}}
 			in.Store.SetGate(ctl.gate)
+			crand.Reader = gateReader{baseRand, ctl}
 			// run one step of A and of B under a schedule (nil: A alone / B alone are done by the caller)
 			runPair := func(a, b *cClient, sa, sb schedStep, sched []string) (string, string) {
 				ctl.active = true
@@ -233,6 +290,7 @@ func schedCmd(args []string) {
 					if done[id] {
 						return
 					}
+					ctl.current = id
 					ctl.grant[id] <- struct{}{}
 					ev := <-ctl.arrive
 					if ev == "done:"+id {
@@ -255,6 +313,7 @@ func schedCmd(args []string) {
 					step(b.browser)
 				}
 				ctl.active = false
+				ctl.current = ""
 				return res[a.browser], res[b.browser]
 			}
 			for r := 0; r < len(steps); r++ {
@@ -273,7 +332,9 @@ func schedCmd(args []string) {
 							counter++
 						}
 					})
+					ctl.counting = &counter
 					o := observe(in, cc, st)
+					ctl.counting = nil
 					in.Store.SetGate(ctl.gate)
 					return o, counter
 				}
@@ -309,6 +370,11 @@ func schedCmd(args []string) {
 					}
 					if ob != soloB && len(diffs) < 10 {
 						diffs = append(diffs, diff{mods, sa.name, sb.name, r, off, s, "b", soloB, ob})
+					}
+					// whatever random secret the two requests were given (OAuth2 state, remember cookie, tokens kept in
+					// the client state), they must not have been given the same one
+					if k := sharedSecret(a, b); k != "" && len(diffs) < 10 {
+						diffs = append(diffs, diff{mods, sa.name, sb.name, r, off, s, "a+b", "distinct random secrets", "both clients hold the same " + k})
 					}
 				}
 				// advance the reference state: A's step, then B's
